@@ -109,7 +109,7 @@ def _maxwidth(spec):
 
 def _kind(spec):
     t = spec.get('t')
-    if t in ('mpf', 'float', 'str', 'frac', 'mpq', 'int'):
+    if t in ('mpf', 'float', 'str', 'frac', 'mpq', 'int', 'mpmathobj'):      # (a user number type converts to a real mpf)
         return 'real' if t != 'int' else 'int'
     if t in ('mpc', 'complex'):
         return 'cplx'
